@@ -24,7 +24,7 @@ out = []
 seen = set()
 catalogue = {}
 budget = {("c01", "x"): 0, ("c04", "x"): 0, ("c07", "x"): 0, ("c02", "x"): 0, ("c03", "x"): 0, ("c16", "x"): 0, ("c17", "x"): 0, ("c18", "x"): 0}
-XMAX = {"c01": 2, "c04": 3, "c07": 3}
+XMAX = {"c01": 1, "c04": 2, "c07": 2}
 
 
 def components(n, code):
@@ -246,7 +246,7 @@ for prop, sem, kind, enc, n, g, q in ITER:
     h(prop, tier, sem, kind, enc, n, g, q)
     if len(out) > before:
         iter_names.append(out[-1].split("(")[1].split(",")[0])
-    if kind != "se":
+    if kind != "se" and enc in ("adm", "aux", "acf") and n == 2:
         before = len(out)
         h("c04", tier, sem, kind, enc, n, g, q, cert=True)
         if len(out) > before:
